@@ -67,6 +67,15 @@ def drive(ctx):
         for (num, den) in (floats if not q else rnd.sample(floats, 3)):
             for o in ("mul_float", "rmul_float", "truediv_float"):
                 ctx.emit("dur_op", {"o": o, "num": num, "den": den}, [x])
+    # comparisons, equality and hash of very long durations one microsecond apart (beyond the precision of a float
+    # total_seconds()), against Durations and plain timedeltas, on either side
+    for days in ctx.mine([99420, 150000, 999999, -999999, 3650000, -120000, 20000000]):
+        for (u1, u2) in ((0, 1), (1, 0), (5, 5), (999999, 999998), (-1, 0)):
+            x, y = dur(d=days, s=3, us=u1), dur(d=days, s=3, us=u2)
+            ctx.emit("dur_op", {"o": "cmp"}, [x, y])
+            ctx.emit("dur_op", {"o": "cmp"}, [x, as_td(y)])
+            ctx.emit("dur_op", {"o": "sub"}, [x, y])
+            ctx.emit("dur_op", {"o": "add"}, [x, as_td(y)])
     # duration (/) duration on operands that fit the limb bounds: sub-2000 s microsecond values and whole seconds
     sx = operands(rnd, small=True)
     sy = operands(rnd, small=True)
